@@ -87,8 +87,11 @@ func runC03Errors(c *Ctx) {
 				if why == "" {
 					why = droppedOnNonNilPath(call, res.Len())
 				}
+				if why == "" {
+					why = overwrittenInLoop(call, res.Len())
+				}
 				if why != "" && canPropagate {
-					c.Bad(call.Pos(), fn, construct, "the error is only compared with nil and then dropped: "+why+" — a failed validation/parse step is silently treated as success")
+					c.Bad(call.Pos(), fn, construct, "the error does not reach the caller: "+why+" — a failed validation/parse step is silently treated as success")
 					return
 				}
 				c.OK(call.Pos(), fn, construct, "error is extracted and used")
@@ -108,6 +111,80 @@ func runC03Errors(c *Ctx) {
 	if n < 150 {
 		c.Errorf("only %d error-returning call sites found", n)
 	}
+}
+
+// overwrittenInLoop: the call sits in a loop and its error is not looked at
+// inside that loop: it is only carried to the next iteration (a phi at the
+// loop header, or a variable declared outside the loop that the loop never
+// reads), where the next call overwrites it — only the last iteration's error
+// survives.
+func overwrittenInLoop(call *ssa.Call, nres int) string {
+	var errv ssa.Value = call
+	if nres > 1 {
+		errv = nil
+		for _, r := range *call.Referrers() {
+			if ex, ok := r.(*ssa.Extract); ok && ex.Index == nres-1 {
+				errv = ex
+			}
+		}
+	}
+	if errv == nil {
+		return ""
+	}
+	f := call.Parent()
+	var loop map[*ssa.BasicBlock]bool
+	for _, h := range f.Blocks {
+		l := naturalLoop(h)
+		if l != nil && l[call.Block()] && (loop == nil || len(l) < len(loop)) {
+			loop = l
+		}
+	}
+	if loop == nil {
+		return ""
+	}
+	usedInside, carried := false, false
+	seen := map[ssa.Value]bool{}
+	var walk func(v ssa.Value, d int)
+	walk = func(v ssa.Value, d int) {
+		if d > 4 || seen[v] || v.Referrers() == nil {
+			return
+		}
+		seen[v] = true
+		for _, r := range *v.Referrers() {
+			switch x := r.(type) {
+			case *ssa.DebugRef:
+			case *ssa.Phi:
+				if loop[x.Block()] {
+					carried = true
+					walk(x, d+1)
+				}
+			case *ssa.Store:
+				al, ok := x.Addr.(*ssa.Alloc)
+				if !ok || x.Val != v || loop[al.Block()] {
+					usedInside = true
+					continue
+				}
+				carried = true
+				for _, ar := range *al.Referrers() {
+					if ld, ok := ar.(*ssa.UnOp); ok && loop[ld.Block()] {
+						usedInside = true
+					}
+					if _, isMC := ar.(*ssa.MakeClosure); isMC {
+						usedInside = true
+					}
+				}
+			default:
+				if loop[r.Block()] {
+					usedInside = true
+				}
+			}
+		}
+	}
+	walk(errv, 0)
+	if carried && !usedInside {
+		return "inside the loop the error is neither tested nor returned, it is only carried into the next iteration, whose call overwrites it (only the last iteration's error can be seen after the loop)"
+	}
+	return ""
 }
 
 // testedButIgnored: every use of the call's error result is a comparison with
